@@ -201,11 +201,12 @@ spiftool_safe_strncpy(spif_charptr_t dest, const spif_charptr_t src, spif_int32_
 {
     spif_char_t c;
     spif_charptr_t s = src, pbuff = dest;
-    spif_charptr_t max_pbuff = dest + size - 1;
+    spif_charptr_t max_pbuff;
 
     ASSERT_RVAL(!SPIF_PTR_ISNULL(dest), FALSE);
     REQUIRE_RVAL(!SPIF_PTR_ISNULL(src), FALSE);
     REQUIRE_RVAL(size > 0, FALSE);
+    max_pbuff = dest + size - 1;
 
     for (; (c = *s) && (pbuff < max_pbuff); s++, pbuff++) {
         *pbuff = c;
